@@ -70,7 +70,47 @@ def comparator(e, roles=None):
     return 'expr:' + ast.unparse(e)[:40]
 
 
-def table(fnode, pick):
+OPERATOR_FUNCS = {'gt': '>', 'ge': '>=', 'lt': '<', 'le': '<=', 'eq': '==', 'ne': '!='}
+
+
+def _table_rows(s, pick, consts, gm):
+    """Rows of a data-driven dispatch  `for (k, fn) in TABLE: if subject == k: <picked statement using fn(x, bound)>`:
+    one row per table entry, the comparator taken from the entry's operator.* function."""
+    if not (isinstance(s, ast.For) and len(s.body) == 1 and isinstance(s.body[0], ast.If) and consts):
+        return None
+    it = s.iter
+    if isinstance(it, ast.Call) and isinstance(it.func, ast.Attribute) and it.func.attr == 'items':
+        it = it.func.value
+    if not (isinstance(it, ast.Name) and it.id in consts and isinstance(s.target, (ast.Tuple, ast.List)) and len(s.target.elts) == 2
+            and all(isinstance(e, ast.Name) for e in s.target.elts)):
+        return None
+    kvar, fvar = s.target.elts[0].id, s.target.elts[1].id
+    tab = consts[it.id]
+    entries = []
+    if isinstance(tab, ast.Dict):
+        entries = list(zip(tab.keys, tab.values))
+    elif isinstance(tab, (ast.Tuple, ast.List)):
+        entries = [(e.elts[0], e.elts[1]) for e in tab.elts if isinstance(e, (ast.Tuple, ast.List)) and len(e.elts) == 2]
+    picked = [(st, pick(st)) for st in s.body[0].body if pick(st) is not None]
+    if not entries or len(picked) != 1:
+        return None
+    st, v = picked[0]
+    calls = [c for c in ast.walk(v) if isinstance(c, ast.Call) and isinstance(c.func, ast.Name) and c.func.id == fvar and len(c.args) == 2]
+    if len(calls) != 1:
+        return None
+    bound = calls[0].args[1]
+    rt = repr(bound.value) if isinstance(bound, ast.Constant) else 'BOUND'
+    _, marks = guard_facts(gm.chain(s) or ())
+    rows = []
+    for k, fn in entries:
+        name = fn.attr if isinstance(fn, ast.Attribute) else getattr(fn, 'id', None)
+        if not (isinstance(k, ast.Constant) and name in OPERATOR_FUNCS):
+            return None
+        rows.append(((k.value,), frozenset(marks), OPERATOR_FUNCS[name] + ' ' + rt, st))
+    return rows
+
+
+def table(fnode, pick, consts=None):
     """pick(stmt) -> verdict expression or None.  -> [(label, markers, comparator, stmt)]"""
     gm = GuardMap(fnode)
     rows = []
@@ -78,6 +118,10 @@ def table(fnode, pick):
     while stack:
         s = stack.pop(0)
         if isinstance(s, (ast.FunctionDef, ast.ClassDef)):
+            continue
+        tr = _table_rows(s, pick, consts, gm)
+        if tr is not None:
+            rows += tr
             continue
         v = pick(s)
         if v is not None:
